@@ -11,7 +11,7 @@ for id in "${ids[@]}"; do
   git -C /repo apply /verif/seeded/$id/patch.diff || { echo "$id: patch does not apply"; continue; }
   for p in $props; do
     out=$(./check $p 2>&1); rc=$?
-    line=$(echo "$out" | grep -E "^(VIOLATION|UNDECIDED|OK|KNOWN)" | head -2 | tr '\n' ' ')
+    line=$(echo "$out" | grep -E "^(VIOLATION|UNDECIDED|OK)" | head -2 | tr '\n' ' ')
     echo "$id check=$p exit=$rc $line" | cut -c1-400 | tee -a seeded/RESULTS.txt
   done
   git -C /repo checkout -- .
